@@ -244,9 +244,9 @@ def ev_atm(case, rec):
 
 
 SUBCHECKS = [
-    Sub('plane', gen_plane, ev_plane, chunk=2, floor=200, guard=True),
-    Sub('vaconv', gen_va, ev_va, chunk=4, floor=30, guard=True),
-    Sub('atmos', gen_atm, ev_atm, chunk=1, floor=100, guard=True),
+    Sub('plane', gen_plane, ev_plane, chunk=2, floor=200, guard=True, envs=3),
+    Sub('vaconv', gen_va, ev_va, chunk=4, floor=30, guard=True, envs=2),
+    Sub('atmos', gen_atm, ev_atm, chunk=1, floor=100, guard=True, envs=2),
 ]
 
 
